@@ -38,6 +38,9 @@ func zzC05Encode(val interface{}) ([]byte, error) { return []byte{1}, nil }
 
 func zzC05LookBack(bc *core.BlockChain, r uint64, isCert bool) (state.ValidatorReader, error) {
 	zzC05CertSet = isCert
+	// vote kinds travel as the consensus layer's numbers (consensus/ucon/types.go: Certificate = 5,
+	// pinned against this package's copy by zzH_C05_detector)
+	zzverif.Assert(isCert == (zzC05Ev.VoteType == 5) && r == zzC05Ev.Round, "the signer index is resolved in the certificate look-back set exactly for certificate votes, at the evidence's round")
 	return zzC05Reader, nil
 }
 
